@@ -77,6 +77,7 @@ def evaluate(ctx, cases):
         n0, n1 = c['n0'], c['n1']
         sigs, fs, fr = _grid(c['seed'], n0, n1)
         flat = sigs.reshape(n0 * n1, -1)
+        sigs = implutil.layout_nd(sigs, c['seed'])          # C / Fortran / read-only / strided memory layout
         delays = {}
         if c['delay'] == 'reverse':
             delays = {float(flat[i][0]): 0.015 * (n0 * n1 - i) for i in range(n0 * n1)}
